@@ -7,6 +7,9 @@ def _c20_case(c):
         return {"op": "P", "input": unhex(p[1])}
     if p[0] == "R":
         return {"op": "R", "registry": unhex(p[1]), "repository": unhex(p[2]), "input": unhex(p[3])}
+    if p[0] == "Q":
+        return {"op": "Q", "kind": p[1], "plain": "true" if p[2] == "1" else "false", "registry": unhex(p[3]),
+                "repository": unhex(p[4]), "reference": unhex(p[5]), "input": unhex(p[6])}
     if p[0] == "G":
         return {"op": "G", "input": unhex(p[1])}
     if p[0] == "V":
@@ -33,7 +36,7 @@ LINK = {
 
 CONFIG = {
     "properties_file": "Properties/C20.v",
-    "proof_files": ["Base/Prelude.v", "Base/Regex.v", "Proofs/Reference.v", "Proofs/RefOps.v", "Proofs/RefURL.v", "Proofs/RefGrammar.v"],
+    "proof_files": ["Base/Prelude.v", "Base/Regex.v", "Proofs/Reference.v", "Proofs/RefOps.v", "Proofs/RefURL.v", "Proofs/RefGrammar.v", "Proofs/NetURL.v"],
     "model_files": ["Generated/GC20.v", "Model/NetURL.v", "Model/Reference.v", "Model/RefOps.v"],
     "extract": "XC20.v",
     "ml_main": "c20_main.ml",
